@@ -346,6 +346,9 @@ pub fn run(ctx: &Ctx) -> Report {
             }
         }
     }
+    if rep.samples.is_empty() {
+        rep.sample(json!({"note": "no chain history 0 in this run", "transcript_records_compared": rep.count("c19/chain/transcript_records_compared")}));
+    }
     rep.rule = RULE.into();
     rep.assume("transcripts exclude error texts (Ok/Err only), as the property speaks of errors-or-not");
     rep.assume("Miri runs (thorough tier) use a short chain history (setup + 3 transactions) because the interpreter is ~4 orders of magnitude slower");
